@@ -242,6 +242,29 @@ def prop_graph(rec):
                 check_exec('touch', ex, must, may, case,
                            ' (after {} {})'.format(
                                'replacing' if replaced else 'touching', f))
+            # (c2) clean removes everything the builds created, and the next
+            # build makes all of it again
+            if case.get('clean', True):
+                n[0] += 1
+                clock.tick(tmp)
+                c = sandbox.run_backend(backend, bld, env, ['clean'])
+                if c.rc != 0:
+                    raise Violation('graph/clean/failed',
+                                    (c.err + c.out).strip()[-500:], case)
+                left = sorted(
+                    rel for rel in set(sandbox.snapshot(bld)) - after_configure
+                    if not os.path.isdir(os.path.join(bld, rel)) and
+                    not rel.endswith('.dir') and
+                    not rel.startswith(('.ninja', '.refninja')))
+                if left:
+                    raise Violation('graph/clean/leftovers', 'clean left {}'
+                                    .format(left[:10]), case)
+                r, ex = do_build(['all'])
+                if r.rc != 0:
+                    raise Violation('graph/clean/rebuild-failed',
+                                    r.err.strip()[-600:], case)
+                check_exec('after-clean', ex, run_keys(need_must),
+                           run_keys(need_may), case, ' (build after clean)')
             # (d) named targets from a cleaned tree
             named = [m for m in g if m['phony']][:3]
             extra_targets = [(m['outputs'][0][2:], [m['outputs'][0]])
